@@ -74,4 +74,50 @@ CONTRACTS = {
         ensures=["result == any_default(param, nodes)"],
         mustfail="result == (not any_default(param, nodes))",
     ),
+    IS + "_unique_params": dict(
+        props=["C08"],
+        generator=True,
+        params={"nodes": DICT(STR, OBJ("HyperNode"))},
+        returns=SEQ(STR),
+        ensures=[
+            # every parameter of every node is yielded, nothing else, nothing twice
+            "all(all(p in result for p in n.inputs) for n in nodes.values())",
+            "all(any(x in n.inputs for n in nodes.values()) for x in result)",
+            "all(result[i] != result[j] for i in range(len(result)) for j in range(len(result)) if i != j)",
+        ],
+        modifies=[],
+        loops=[
+            {"modifies": "non-entry", "invariant": [
+                "all(all(p in _yield for p in n.inputs) for n in _seq[:_i])", "all(any(x in n.inputs for n in _seq[:_i]) for x in _yield)",
+                "all(_yield[i] != _yield[j] for i in range(len(_yield)) for j in range(len(_yield)) if i != j)",
+                "all(x in seen for x in _yield)", "all(x in _yield for x in seen)"]},
+            {"modifies": "non-entry", "invariant": [
+                "all(all(p in _yield for p in n.inputs) for n in _seq0[:_i0])", "all(p in _yield for p in _seq[:_i])",
+                "all(any(x in n.inputs for n in _seq0[:_i0 + 1]) for x in _yield)",
+                "all(_yield[i] != _yield[j] for i in range(len(_yield)) for j in range(len(_yield)) if i != j)",
+                "all(x in seen for x in _yield)", "all(x in _yield for x in seen)"]},
+        ],
+    ),
+    IS + "compute_input_spec": dict(
+        props=["C08"],
+        params={"nodes": DICT(STR, OBJ("HyperNode")), "nx_graph": ANY, "bound": DICT(STR, ANY), "entrypoints": ANY, "selected": ANY, "_active_scope": ANY},
+        returns=OBJ("InputSpec"),
+        requires=["_active_scope is None"],   # the path of Graph.inputs; the runners pass a pre-computed scope of the same shape
+        may_raise={"Exception": True},
+        call_site="opaque",
+        # EXACTNESS of the reported spec (ghosts: the active node map, the edge-produced names and the cycle entry points computed
+        # inside): a parameter of an active node is reported required exactly when nothing can supply it, optional exactly when a
+        # binding or a default can, and not at all when an edge produces it or a cycle entry point covers it
+        ensures=[
+            "all(p not in _ret_get_edge_produced_values and p not in bound and not any_default(p, _ret_compute_active_scope[0]) for p in result.required)",
+            "all(p not in _ret_get_edge_produced_values and (p in bound or any_default(p, _ret_compute_active_scope[0])) for p in result.optional)",
+            "all(all(p in result.required or p in result.optional or p in _ret_get_edge_produced_values or any(p in ps for ps in _ret_compute_entrypoints.values()) for p in n.inputs) for n in _ret_compute_active_scope[0].values())",
+            "all(any(p in n.inputs for n in _ret_compute_active_scope[0].values()) for p in result.required)",
+        ],
+        loops=[{"modifies": ["required", "optional"], "invariant": [
+            "all(p not in edge_produced and p not in bound and not any_default(p, active_nodes) for p in required)",
+            "all(p not in edge_produced and (p in bound or any_default(p, active_nodes)) for p in optional)",
+            "all(p in required or p in optional or p in edge_produced or p in all_entry_params for p in _seq[:_i])",
+            "all(p in _seq[:_i] for p in required)"]}],
+    ),
 }
